@@ -794,6 +794,49 @@ def replay(args, binary, helper):
     return 1
 
 
+def injected_run(binary, root, rep):
+    """`ast-grep run -p P -r R` with the language inferred per file: the edits shown (--json) and
+    written (-U) for code inside <script> of an .html file must be the edits of the same code in a
+    .js file, shifted by the position of the code (same trimming of tokens the pattern does not
+    cover). Differential between two files of one run; the .js side is what C08's main grid ties to
+    the library."""
+    cases = [("var $A = $B", "let $A = $B"), ("foo($A)", "bar($A)"), ("$A + $B", "$B + $A"), ("if ($C) $S", "while ($C) $S")]
+    bodies = ["var a = 1; var b = foo(1, 2,); /* c */\n", "foo(a + 1);\nif (x) foo(2);\n", "var é = 'ü' + b;\n"]
+    n = 0
+    for pi, (pat, rw) in enumerate(cases):
+        for bi, body in enumerate(bodies):
+            d = os.path.join(root, "inj_%d_%d" % (pi, bi))
+            pre = "<div>t</div>\n<script>"
+            files = {"a.js": body, "b.html": pre + body + "</script>\n"}
+            vlib.write_tree(d, files)
+            code, out, err = vlib.run_cli(binary, ["run", "-p", pat, "-r", rw, "--json=stream", "."], d)
+            crash = vlib.is_crash(code, err)
+            if crash:
+                rep.violation("cli.run:crash:%s" % crash, {"pattern": pat, "rewrite": rw, "files": files})
+                continue
+            edits = {"a.js": [], "b.html": []}
+            for line in out.decode().splitlines():
+                if line.strip():
+                    r = json.loads(line)
+                    ro = r.get("replacementOffsets") or {}
+                    edits[os.path.basename(r["file"])].append((ro.get("start"), ro.get("end"), r.get("replacement")))
+            shift = len(pre.encode())
+            want = sorted((a + shift, b + shift, t) for a, b, t in edits["a.js"])
+            got = sorted(e for e in edits["b.html"] if e[0] is not None and e[0] >= shift)
+            n += 1
+            if want != got:
+                rep.violation("cli.run.html-injected!=cli.run.js:edit-range-or-text", {"pattern": pat, "rewrite": rw, "files": files, "js_edits_shifted": want, "html_edits": got})
+                continue
+            # and -U writes them
+            code, out, err = vlib.run_cli(binary, ["run", "-p", pat, "-r", rw, "-U", "."], d)
+            after = vlib.read_tree(d)
+            js_after = after["a.js"].decode("utf-8", "replace")
+            html_after = after["b.html"].decode("utf-8", "replace")
+            if html_after != pre + js_after + "</script>\n" and not any(e[0] is not None and e[0] < shift for e in edits["b.html"]):
+                rep.violation("cli.run.html-injected!=cli.run.js:written-text", {"pattern": pat, "rewrite": rw, "files": files, "js_after": js_after, "html_after": html_after})
+    return n
+
+
 def main(argv):
     args = vlib.parse_args(argv)
     binary = vlib.build_cli()
@@ -912,6 +955,7 @@ def main(argv):
         "Hash seeds are fixed by the LD_PRELOAD shim; the helper binary `frontends` is built from the same tree as the CLI "
         "(VERIF_FRONTENDS names it for a scratch tree).",
     ]
+    coverage["injected_run_cases"] = injected_run(binary, root, rep)
     return rep.finish("exploration", coverage, assumptions)
 
 
